@@ -105,7 +105,10 @@ func c07Eq(a, b reflect.Value, e fit.VerifField) bool {
 	return fitmodel.Dump(a) == fitmodel.Dump(b)
 }
 
-var accumulatedDests = map[string][]string{"CompressedSpeedDistance": {"Distance"}, "Cycles": {"TotalCycles"}, "CompressedAccumulatedPower": {"AccumulatedPower"}}
+// Only the distance accumulator is history-dependent on the pinned tree (listed finding: package-level accumulator).
+// The cycles / accumulated-power accumulators are created with mask 0 (another listed finding) and therefore always
+// yield 0: equal in every generation, so they are compared like any other field.
+var accumulatedDests = map[string][]string{"CompressedSpeedDistance": {"Distance"}}
 
 // c07CompareFiles compares two generations; returns message, class.
 func c07CompareFiles(a, b *fit.File, strict bool) (string, string) {
